@@ -28,9 +28,11 @@ def wf(case) -> bool:
     return CP.wf_cp(case) and "reweight" in case["params"]
 
 
-def _snap(g) -> Dict[str, Any]:
+def _snap(g, weights=None) -> Dict[str, Any]:
+    """`weights`: the weights the what-if step assigned (the graph the user asked about); the graph's own attributes
+    after `critical_path()` are reported separately, so that a recomputation that silently restores old weights shows."""
     import networkx as nx
-    edges = [[int(u), int(v), C.num(g.edges[u, v]["weight"])] for u, v in g.edges]
+    edges = [[int(u), int(v), C.num(g.edges[u, v]["weight"] if weights is None else weights[(u, v)])] for u, v in g.edges]
     order = [int(n) for n in nx.topological_sort(g)]
     path = [int(n) for n in g.critical_path_nodes]
     es = sorted([int(e.begin), int(e.end)] for e in g.critical_path_edges_set)
@@ -54,10 +56,13 @@ def observe(case):
                 u, v = el[int(frac * len(el)) % len(el)]
                 g.edges[u, v]["weight"] = w
             if case["params"]["reweight"]:
+                intended = {(u, v): g.edges[u, v]["weight"] for u, v in g.edges}
                 try:
                     ok2 = g.critical_path()
-                    s = _snap(g)
+                    s = _snap(g, intended)
                     s["ok"] = bool(ok2)
+                    s["weights_changed_by_recompute"] = [[int(u), int(v), C.num(intended[(u, v)]), C.num(g.edges[u, v]["weight"])]
+                                                         for u, v in g.edges if C.num(g.edges[u, v]["weight"]) != C.num(intended[(u, v)])][:5]
                     canon["rounds"].append(s)
                 except Exception as e:  # noqa: BLE001
                     # a what-if that leaves no positive-weight edge has no critical path to speak of (every path,
@@ -137,7 +142,8 @@ def oracle(case, obs) -> List[str]:
         if any((a, b) not in wmap for a, b in zip(r["path"], r["path"][1:])):
             out.append(f"round {i}: reported path uses a non-edge")
         if pw != bestw:
-            out.append(f"round {i}: reported path weighs {pw}, maximum over all paths is {bestw}")
+            out.append(f"round {i}: reported path weighs {pw}, maximum over all paths is {bestw}"
+                       + (f" (recomputing changed the weights that had been set: {r['weights_changed_by_recompute'][:2]})" if r.get("weights_changed_by_recompute") else ""))
     return out
 
 
